@@ -104,6 +104,34 @@ func panicFrame(stack string) string {
 	return "unknown"
 }
 
+// PriorFiles are files a harness may have parsed in the same process right before the file under test
+// (Prime): whatever one parse leaves behind - exclusion flags, unread buffered bytes, cached results - must not
+// reach the next one. Index 0 is a neutral file (valid, read to its end, every exclusion block closed): parsing
+// it first puts the process into one defined state whatever earlier cases of the same worker left behind, which
+// keeps every case reproducible on its own.
+var PriorFiles = func() []string {
+	long := strings.Repeat("  - record: filler:rule\n    expr: sum(up) by (job)\n", 40)
+	return []string{
+		"groups:\n- name: p\n  rules:\n  - record: p:a\n    expr: up\n# pint ignore/begin\n  - record: p:b\n# pint ignore/end\n",
+		"groups:\n- name: p\n  rules:\n  - record: p:a\n    expr: up\n# pint ignore/begin\n  - record: p:b\n    expr: up\n",
+		"groups:\n- name: p\n  rules:\n  - record: p:a\n    expr: up\n# pint ignore/next-line",
+		// the decoder stops at a syntax error near the top with ~2 KB still unread
+		"groups:\n- name: p\n  rules:\n  - record: [ broken\n" + long,
+		// strict-mode error in the first document of a long multi-document file
+		"groups:\n- name: p\n  bogus: true\n  rules: []\n---\ngroups:\n- name: q\n  rules:\n" + long,
+	}
+}()
+
+// Prime parses PriorFiles[i] (strict and relaxed) and throws the result away.
+func Prime(i int) {
+	if i < 0 || i >= len(PriorFiles) {
+		i = 0
+	}
+	for _, strict := range []bool{true, false} {
+		Parse("prior.yml", []byte(PriorFiles[i]), strict, parser.PrometheusSchema, model.UTF8Validation)
+	}
+}
+
 // Parse runs the file through the same function GlobFinder.Find uses. path is what reports carry.
 func Parse(path string, content []byte, strict bool, schema parser.Schema, names model.ValidationScheme) (entries []discovery.Entry, crash *Crash) {
 	defer catch("parse", &crash)
